@@ -189,6 +189,26 @@ def check_decode(nl, cases, ctx=None):
             src = "R" + quote + text + quote
             want = {"s": text}
             nt = "\\" in text
+        elif t == "fstr":
+            # format string: literal text pieces (any characters) alternating with interpolated integer / string expressions
+            quote = c["quote"]
+            src, out = "F" + quote, ""
+            for piece in c["parts"]:
+                if piece[0] == "text":
+                    txt = "".join(ch for ch in piece[1] if ch not in (quote, "\\", "{", "}"))
+                    src += txt
+                    out += txt
+                elif piece[0] == "int":
+                    src += "{%d + %d}" % (piece[1], piece[2])
+                    out += str(piece[1] + piece[2])
+                else:
+                    oq = "'" if quote == '"' else '"'
+                    txt = "".join(ch for ch in piece[1] if ch not in ('"', "'", "\\", "{", "}"))
+                    src += "{%s%s%s}" % (oq, txt, oq)
+                    out += txt
+            src += quote
+            want = {"s": out}
+            nt = any(ord(ch) > 127 for ch in src)
         else:
             raise ValueError(t)
         items.append((i, t, src, want, nt))
@@ -343,7 +363,8 @@ def worker(ctx):
                 toks.insert(i, t)
         return "".join(toks)
     mut = st.tuples(st.sampled_from(progs), st.lists(st.tuples(st.integers(0, 4), st.integers(0, 400), tok), min_size=1, max_size=6)).map(mutate)
-    hexd = st.text(alphabet="0123456789abcdefABCDEF", min_size=0, max_size=12)
+    hexd = st.one_of(st.text(alphabet="0123456789abcdefABCDEF", min_size=0, max_size=12),
+                     st.sampled_from(["d800", "dfff", "DBFF", "d83d\\ude00", "d7ff", "e000", "10ffff", "110000", "ffffffff", "0", "00000041"]))
     escapes = st.builds(lambda q, pre, kind, h, post: "%s%s%s%s%s%s" % (pre, q, kind, h, post, q), st.sampled_from(['"', "'"]), st.sampled_from(["", "B", "F", "R"]),
                         st.sampled_from(["\\x", "\\u", "\\u{", "\\u(", "\\u[", "\\u<", "\\", "\\q", "{", "{x #", "{x #5", "{{", "}"]), hexd,
                         st.sampled_from(["", "}", ")", "]", ">", "g", "\\"]))
@@ -351,7 +372,7 @@ def worker(ctx):
                         st.integers(1, 3000).map(lambda n: "9" * n), st.integers(1, 400).map(lambda n: "1" + "e" + "9" * n),
                         st.integers(1, 60).map(lambda n: "%dr%s" % (n, "z" * 5)), st.text(max_size=40))
     # format-string bodies: flag comments with digit runs of every length (pad widths beyond a machine word included)
-    fmt = st.builds(lambda q, e, fl, w, tail: "F%s{%s #%s%s%s}%s%s" % (q, e, fl, w, tail, "", q), st.sampled_from(['"', "'"]), st.sampled_from(["1", "x", "1 + 2", '"s"', ""]),
+    fmt = st.builds(lambda q, e, fl, w, tail: "F%s%s{%s #%s%s%s}%s%s" % (q, "é→"[len(w) % 3:], e, fl, w, tail, "", q), st.sampled_from(['"', "'"]), st.sampled_from(["1", "x", "1 + 2", '"s"', "", "'é'", "1 $ '→'"]),
                     st.sampled_from(["", "x", "X", "b", "o", "e", "d", "<", ">", "^", "0", " ", "#"]),
                     st.one_of(st.integers(0, 200).map(str), st.integers(1, 45).map(lambda k: "9" * k), st.integers(1, 45).map(lambda k: "1" + "0" * k), st.just("18446744073709551616")),
                     st.sampled_from(["", "x", "d", ".3", " ", "}"]))
@@ -405,5 +426,8 @@ def worker(ctx):
         lambda t, q: {"t": t, "quote": q, "cps": [a for a, _ in xs], "forms": [b for _, b in xs]}, st.sampled_from(["str", "str", "bytes"]), st.sampled_from(['"', "'"])))
     raws = st.lists(st.one_of(st.integers(0x20, 0x7e), st.sampled_from([0x5c, 0xe9, 0x1f600])), max_size=10).flatmap(
         lambda xs: st.sampled_from(['"', "'"]).map(lambda q: {"t": "raw", "quote": q, "cps": xs}))
-    lits = st.one_of(ints, ints, rats, floats, imags, strs, strs, raws)
+    ftxt = st.text(alphabet=st.sampled_from("ab é€→😀\u0301\u00a0#:"), max_size=4)
+    fpart = st.one_of(ftxt.map(lambda t: ["text", t]), st.tuples(st.integers(0, 99), st.integers(0, 9)).map(lambda t: ["int", t[0], t[1]]), ftxt.map(lambda t: ["str", t]))
+    fstrs = st.builds(lambda q, parts: {"t": "fstr", "quote": q, "parts": parts}, st.sampled_from(['"', "'"]), st.lists(fpart, min_size=1, max_size=5))
+    lits = st.one_of(ints, ints, rats, floats, imags, strs, strs, raws, fstrs)
     ctx.hyp(st.lists(lits, min_size=32, max_size=32), lambda b: ctx.check("decode", b), ctx.share(ctx.scale(1000, 40000)), label="c15d")
